@@ -16,7 +16,7 @@ NAMES = ["a", "b", "c", "ab", "x1", "x2", "b2"]
 REGEXES = ["^x", "a", "^b", "x1|x2", "^.$", "2$", "^(a|c)$", "b"]
 INT_POOL = [-2, -1, 0, 1, 2, 3, 4, 5]
 FLOAT_POOL = [-1.5, -1.0, 0.0, 0.5, 1.0, 1.5, 2.0, 3.0]
-STR_POOL = ["a", "b", "ab", "ba", "", "aa", "abc", "B"]
+STR_POOL = ["a", "b", "ab", "ba", "", "aa", "abc", "B", "cb"]
 DAY_POOL = [0, 1, 2, 3, 4, 5]
 PATTERNS = ["a", "^a", "a|b", "[ab]+", "b$", ".", "^(a|b)$", "x?", "^a.*c$", "(ab)+"]
 
